@@ -271,6 +271,31 @@ class Engine:
         if k == "const":
             if op["val"] is not None: return const_int(op["val"])
             if op.get("def"): return RecV("fn:" + op["def"], {})
+            sname = op.get("s") or ""
+            if "::promoted[" in sname and self.depth < 8:
+                # a promoted constant (`&(1..=1_000_000)`, `&ConnectionState::Connected`): evaluate its tiny body instead of giving up
+                pf = next((g for pk, g in getattr(self.F, "promoted", {}).items() if pk.endswith("::" + sname) or pk == sname), None)
+                if pf is not None:
+                    try:
+                        self.depth += 1
+                        rs = self.run(pf, [], st.copy(), fr["stack"])
+                    except Exception:
+                        rs = []
+                    finally:
+                        self.depth -= 1
+                    if len(rs) == 1:
+                        s2, v = rs[0]
+                        def imp(x, d=0):
+                            if d > 5: return
+                            if isinstance(x, RefV):
+                                if x.cell in s2.mem:
+                                    st.mem[x.cell] = s2.mem[x.cell]; imp(s2.mem[x.cell], d + 1)
+                            elif isinstance(x, RecV):
+                                for f_ in x.fields.values(): imp(f_, d + 1)
+                            elif isinstance(x, EnumV):
+                                for rec_, _fx in x.variants.values(): imp(rec_, d + 1)
+                        imp(v)
+                        return v
             return self.default(op["ty"], "const")
         if k in ("copy", "move"): return self.read_place(st, fr, op["place"])
         return TOP
@@ -659,6 +684,62 @@ class Engine:
         if "FromResidual" in n and n.endswith("::from_residual"):
             if dest_ty and dest_ty.get("path") == "std::option::Option": return [(st, EnumV("std::option::Option", {"None": (None, ())}))]
             return [(st, EnumV("std::result::Result", {"Err": (RecV("Err", {"0": TOP}), ())}))]
+        # --- value-preserving adaptors of Option / Result (the payload and what is known about it travel on)
+        ma = re.search(r"(?:option::Option|result::Result)(?:<.*>)?::(ok|ok_or|ok_or_else|map_err|filter|and_then|map|or_else|inspect|inspect_err|copied|cloned)$", re.sub(r"::<[^()]*>$", "", n))     # (method generics such as `ok_or::<E>` dropped)
+        if ma and isinstance(args[0] if args else None, EnumV) and args[0].name in ("std::option::Option", "std::result::Result"):
+            meth = ma.group(1); v = args[0]
+            some_k = "Some" if v.name == "std::option::Option" else "Ok"
+            none_k = "None" if v.name == "std::option::Option" else "Err"
+            def payload(var): return var[0].fields.get("0", TOP) if var[0] is not None else TOP
+            def run_closure(argv):
+                """(state, value) of the closure given as args[1] applied to argv, or None"""
+                a1 = t["args"][1] if len(t["args"]) > 1 else None
+                cty = fr["fn"].locals[a1["place"]["local"]]["ty"] if a1 and a1["k"] in ("copy", "move") and not a1["place"]["proj"] else None
+                cf = self.F.fns.get(cty.get("path")) if isinstance(cty, dict) and cty.get("k") == "closure" else None
+                if cf is None or self.depth >= 8: return None
+                self.depth += 1
+                try: rs = self.run(cf, [args[1]] + argv, st.copy(), fr["stack"])
+                finally: self.depth -= 1
+                if not rs: return None
+                js, jv = rs[0]
+                for s2, v2 in rs[1:]:
+                    jv = join_val(js, s2, jv, v2); js = join_state(self, None, js, s2)
+                return js, jv
+            if meth == "ok" and v.name == "std::result::Result":
+                var = {}
+                if "Ok" in v.variants: var["Some"] = (RecV("Some", {"0": payload(v.variants["Ok"])}), v.variants["Ok"][1])
+                if "Err" in v.variants: var["None"] = (None, v.variants["Err"][1])
+                return [(st, EnumV("std::option::Option", var))]
+            if meth in ("ok_or", "ok_or_else") and v.name == "std::option::Option":
+                var = {}
+                if "Some" in v.variants: var["Ok"] = (RecV("Ok", {"0": payload(v.variants["Some"])}), v.variants["Some"][1])
+                if "None" in v.variants: var["Err"] = (RecV("Err", {"0": TOP}), v.variants["None"][1])
+                return [(st, EnumV("std::result::Result", var))]
+            if meth == "map_err" and v.name == "std::result::Result":
+                var = {}
+                if "Ok" in v.variants: var["Ok"] = v.variants["Ok"]
+                if "Err" in v.variants: var["Err"] = (RecV("Err", {"0": TOP}), v.variants["Err"][1])
+                return [(st, EnumV("std::result::Result", var))]
+            if meth == "filter" and v.name == "std::option::Option":
+                var = dict(v.variants); var.setdefault("None", (None, ()))
+                return [(st, EnumV("std::option::Option", var))]
+            if meth in ("inspect", "inspect_err", "copied", "cloned"):
+                return [(st, v)]
+            if meth in ("and_then", "map") and some_k not in v.variants:
+                # nothing to apply the closure to: None stays None, Err stays Err
+                return [(st, EnumV(v.name, {none_k: v.variants[none_k] if v.name == "std::option::Option" else (RecV("Err", {"0": TOP}), v.variants[none_k][1])}))] if none_k in v.variants else [(st, v)]
+            if meth in ("and_then", "map") and some_k in v.variants:
+                r_ = run_closure([payload(v.variants[some_k])])
+                if r_ is not None:
+                    js, jv = r_
+                    if meth == "map":
+                        var = {some_k: (RecV(some_k, {"0": jv}), v.variants[some_k][1])}
+                        if none_k in v.variants: var[none_k] = v.variants[none_k] if v.name == "std::option::Option" else (RecV("Err", {"0": TOP}), v.variants[none_k][1])
+                        return [(js, EnumV(v.name, var))]
+                    if isinstance(jv, EnumV) and jv.name == v.name:
+                        var = dict(jv.variants)
+                        if none_k in v.variants and none_k not in var: var[none_k] = v.variants[none_k] if v.name == "std::option::Option" else (RecV("Err", {"0": TOP}), v.variants[none_k][1])
+                        return [(js, EnumV(v.name, var))]
         # --- lengths / emptiness
         if re.search(r"(::len|ExactSizeIterator>::len)$", n) and isinstance(a0, SeqV): return [(st, a0.len)]
         if n.endswith("::is_empty") and isinstance(a0, SeqV):
